@@ -442,13 +442,13 @@ def _block_reaches(F, a, b):
 
 def run(chk, P):
     r12_8(chk, P)
-    chk.floor('R12.8', 2)
+    chk.floor('R12.8', 1)
     chk.rule('R12.9', 'a source that stops delivering data cannot hang a call: the backward page searches (loops that run until a '
              'sentinel changes, stepping a counter clamped at 0) bail out when a pass from the start of the file found nothing '
              '(same obligations as R03.2)')
     from rules import c03
     c03.r03_2(common.Proxy(chk, 'R12.9'), P)
-    chk.floor('R12.9', 2)
+    chk.floor('R12.9', 1)
     E, C = io_sets(P)
     chk.notes.append(f'I/O-capable functions: {len(E)}; of those error-carrying: {len(C)}; not error-carrying: {sorted(E - C)}')
     r12_1(chk, P, E, C)
@@ -456,7 +456,7 @@ def run(chk, P):
     r12_2(chk, P, E, C)
     chk.floor('R12.2', 25)
     r12_3(chk, P)
-    chk.floor('R12.3', 5)
+    chk.floor('R12.3', 3)
     r12_5(chk, P)
     chk.floor('R12.5', 2)
     r12_6(chk, P)
